@@ -54,6 +54,7 @@ const (
 	ErrFuncSecondArgInt   = "second argument for function '%s' on type '%s' must be an INTEGER"
 	ErrFuncSecondArgStr   = "second argument for function '%s' on type '%s' must be a STRING"
 	ErrFuncArgNegative    = "argument for function '%s' on type '%s' must not be negative"
+	ErrFuncResultTooLong  = "result of function '%s' on type '%s' would be longer than %d bytes"
 	ErrFuncMaxArgs        = "function '%s' on type '%s' accepts a maximum of '%d' arguments"
 
 	// Template errors
